@@ -108,6 +108,13 @@ fn main() {
             let index: u64 = args[4].parse().unwrap();
             dispatch!(id.as_str(), child_minimise, tier, index)
         }
+        "digest" => {
+            let id = args[2].clone();
+            let tier = tier_of(args.get(3));
+            let (from, to): (u64, u64) = (args[4].parse().unwrap(), args[5].parse().unwrap());
+            use runner::digest_runs;
+            dispatch!(id.as_str(), digest_runs, tier, from, to)
+        }
         "dump" => {
             let id = args[2].clone();
             let tier = tier_of(args.get(3));
